@@ -881,7 +881,9 @@ def growth_exec(rng, gi, plans, phones, broken, dictname, dcase, n0, max0):
     total = room + 3 + rng.randint(0, 40)
     taken = set()
     stem = fresh_word(rng, plan, taken, 2, 3)
-    gw = [stem + b"%04d" % i for i in range(total + 8)]
+    # spare names: an addition the plan excludes (a pronunciation shape a probe found broken on the tree under test) uses
+    # up a name without filling a slot
+    gw = [stem + b"%04d" % i for i in range(total * 3 + 64)]
     early = gw[:6]
     nobase = gw[-1] + b"(2)"                           # gw[-1] is never added
     pool = list(gw) + [w + b"(2)" for w in early] + [w + b"(3)" for w in early[:2]] + \
@@ -907,7 +909,7 @@ def growth_exec(rng, gi, plans, phones, broken, dictname, dcase, n0, max0):
 
     P = lambda: rand_pron(rng, phones, rng.choice([1, 2, 3, 5]), True)
     i = 0
-    while len(done) < total:
+    while len(done) < total and i < len(gw) - 1:
         left = room - len(done)
         if (left in (2, 1, 0, -1) and i > 8) or rng.random() < 0.004:
             # at the boundary (the table is exactly full when left = 0) and now and then elsewhere:
@@ -922,6 +924,8 @@ def growth_exec(rng, gi, plans, phones, broken, dictname, dcase, n0, max0):
             c.append(("check",))
         add(gw[i], P(), u=1 if -2 <= left <= 2 else 0)
         i += 1
+    if len(done) <= room:
+        return None      # the probes found plain additions broken on this tree (reported there): no growth family
     add(early[0] + b"(3)", P(), u=1)                             # base from before the growth, alternate after it
     add(b"_forward", ["F", "AO", "R", "W", "ER", "D"])
     add(b"onward", ["AA", "N", "W", "ER", "D"])
@@ -1564,12 +1568,12 @@ def run(ctx):
         execs.append(use_exec(rng, ui, plans, phones, D.broken))
     for ti in range(16 if quick else 150):
         execs.append(twin_exec(rng, ti, plans, phones, D.broken))
-    execs.append(growth_exec(rng, 0, plans, phones, D.broken, "turtle", "-", *initial_size(drv, ctx.work, "turtle", "-")))
+    execs += [x for x in [growth_exec(rng, 0, plans, phones, D.broken, "turtle", "-", *initial_size(drv, ctx.work, "turtle", "-"))] if x]
     if not quick:
-        execs.append(growth_exec(rng, 1, plans, phones, D.broken, "turtle", "1", *initial_size(drv, ctx.work, "turtle", "1")))
+        execs += [x for x in [growth_exec(rng, 1, plans, phones, D.broken, "turtle", "1", *initial_size(drv, ctx.work, "turtle", "1"))] if x]
         plans[("model", False)] = plan_dict("model", False, phones)
         plans[("model", True)] = plan_dict("model", True, phones)
-        execs.append(growth_exec(rng, 2, plans, phones, D.broken, "model", "-", *initial_size(drv, ctx.work, "model", "-")))
+        execs += [x for x in [growth_exec(rng, 2, plans, phones, D.broken, "model", "-", *initial_size(drv, ctx.work, "model", "-"))] if x]
         for hi in range(6):
             execs.append(random_exec(rng, 1000 + hi, plans, phones, D.broken, 60, dictname="model"))
     lap("generate")
